@@ -115,6 +115,7 @@ func corpusFields() []*modSpec {
 		mk("tags-empty-struct-last", "package models\n\ntype Table struct {\n\tId int64\n\tData T\n}\n\ntype T struct {\n\tFlags []Marker\n\tOne Marker\n\tN int\n}\n\ntype Marker struct {\n}\n"),
 		mk("tags-embedded-unexported-struct", "package models\n\ntype audit struct {\n\tCreatedBy string `json:\"created_by\"`\n\tVersion int\n\tsecret int\n}\n\ntype Document struct {\n\taudit\n\tID int `json:\"id\"`\n\tTitle string\n\tLabel string `json:\"label,omitempty\"`\n}\n\ntype Table struct {\n\tId int64\n\tData Document\n}\n"),
 		mk("tags-opaque", "package models\n\ntype R struct{ Children []R }\n\ntype T struct {\n\tF1 R `gomacro-opaque:\"dart\"`\n\tF2 R `gomacro-opaque:\"dart, typescript\"`\n\tF3 R `gomacro-opaque:\" typescript\"`\n\tF4 int `json:\"f4\" gomacro-opaque:\"typescript\"`\n}\n\ntype Table struct {\n\tId int64\n\tData T\n}\n"),
+		mk("tags-embedded-same-go-name-other-key", "package models\n\ntype Base struct {\n\tID int64\n\tName string `json:\"base_name\"`\n}\n\ntype Deep struct {\n\tBase\n\tPrice int\n}\n\ntype Item struct {\n\tBase\n\tName string `json:\"name\"`\n\tPrice int\n}\n\ntype Item2 struct {\n\tDeep\n\tPrice int `json:\"price2\"`\n\tName string `json:\"n2\"`\n}\n\ntype Table struct {\n\tId int64\n\tData Item\n\tMore Item2\n}\n"),
 		mk("tags-invalid-name", "package models\n\ntype T struct {\n\tA int `json:\"a\\\\b\"`\n\tB int `json:\"ok\"`\n}\n"),
 	}
 }
